@@ -109,6 +109,15 @@ def gen_case(seed, tier, i):
                 b.add('%s.VALUE' % m, [('goto', '.VAL', {'follow_imports': True}), ('help', '.VAL', None)])
             else:
                 b.add('%s.func' % m, [('get_references', '.fu', None)])
+        if rng.random() < 0.5:
+            # pytest support: fixtures are looked up in conftest.py files and in pytest's plug-ins
+            b.add('def test_something(fx_pa, tmp_path, monkeypatch):')
+            b.add('    fx_pa', [('infer', '    fx_p', None), ('goto', '    fx_p', None)])
+            b.add('    tmp_path.x', [('complete', 'tmp_path.', None)])
+            b.add('    monkeypatch', [('help', 'monkeyp', None)])
+            b.add('')
+            b.add('def test_other(fx_', [('complete', '(fx_', None)])
+            b.add('    pass')
         b.add('import ', [('complete', 'import ', None)])
         return b
 
